@@ -66,9 +66,37 @@ def pair_body(rng):
     return ("paren", ("Pa", "Pb"), ("cat", [("read", "Pb"), ("read", "Pa"), ("read", "Pb"), W("add"), lt(B)]))
 
 
+def mixed_body(rng):
+    """Reachable set with values of DIFFERENT types in the same slot (const / seq / str), revisited along several paths."""
+    B = rng.randint(3, 6)
+    is_const = ("infix", W("type"), "==", W("T_CONST"))
+    wrap = ("paren", ("Mx",), ("cap", (), ("read", "Mx")))
+    tostr = ("str", [("dir", "s")])
+    inc = ("cat", [I(1), W("add"), lt(B)])
+    k = rng.random()
+    if k < 0.4:
+        # n -> [n] -> n+1 -> [n+1] ...
+        return ("if", is_const, wrap, ("cat", [W("elem"), inc]))
+    if k < 0.8:
+        # n -> [n], "n", n+1 ; [n] -> n ; "n" -> its length
+        other = ("if", ("infix", W("type"), "==", W("T_SEQ")), W("elem"), W("length"))
+        return ("if", is_const, ("alt", [wrap, tostr, inc]), other)
+    # n -> "n" and [n] ; both lead back to n+1 (diamond through two types)
+    other = ("if", ("infix", W("type"), "==", W("T_SEQ")), ("cat", [W("elem"), inc]), ("cat", [W("length"), inc]))
+    return ("if", is_const, ("alt", [wrap, tostr]), other)
+
+
 def make_case(rng):
     """(body, list of start stacks as AST value lists, description)"""
     k = rng.random()
+    if k < 0.15:
+        body = ("paren", (), mixed_body(rng))
+        starts = [[I(rng.randint(0, 2))] for _ in range(rng.randint(1, 3))]
+        kind = "mixed"
+        if rng.random() < 0.4:
+            junk = [("str", [b"junk"])]
+            starts = [junk + s for s in starts]
+        return body, starts, kind
     if k < 0.45:
         n = rng.randint(1, 6)
         body, succs = graph_body(rng, n)
@@ -164,13 +192,14 @@ def job(payload):
                         w = zcheck.same_outcome(ra, rb)
                         if w:
                             bad.append(("O2:suffix-collapse %s vs %s: %s" % (a, b, w), dict(a=ta, b=tb)))
-                    # E? = (E,)
-                    tq = zast.text(("cat", list(s) + [("close", "?", body)]))
-                    te = zast.text(("cat", list(s) + [("alt", [body, ("cat", [])])]))
-                    w = zcheck.same_outcome(d.run(tq, fuel=FUEL, max=MAXRES), d.run(te, fuel=FUEL, max=MAXRES))
-                    out["rel"] += 1
-                    if w:
-                        bad.append(("O2:E? vs (E,): " + w, dict(a=tq, b=te)))
+                    # E? = (E,)  -- for E the body, and for E a closure itself (X*?, X+?)
+                    for E in (body, ("close", "*", body), ("close", "+", body)):
+                        tq = zast.text(("cat", list(s) + [("close", "?", E)]))
+                        te = zast.text(("cat", list(s) + [("paren", (), ("alt", [E, ("cat", [])]))]))
+                        w = zcheck.same_outcome(d.run(tq, fuel=FUEL, max=MAXRES), d.run(te, fuel=FUEL, max=MAXRES))
+                        out["rel"] += 1
+                        if w:
+                            bad.append(("O2:E? vs (E,): " + w, dict(a=tq, b=te)))
                 if sorted(parts) != whole:
                     bad.append(("O2:per-input-clean-slate", dict(text=t, whole=len(whole), parts=len(parts))))
         except common.DriverCrash as ex:
